@@ -429,12 +429,22 @@ coap_add_attr(coap_resource_t *resource,
     if (!(flags & COAP_ATTR_FLAGS_RELEASE_NAME)) {
       /* Need to take a copy if caller is not providing a release request */
       name = coap_new_str_const(name->s, name->length);
+      if (!name) {
+        coap_free_type(COAP_RESOURCEATTR, attr);
+        return NULL;
+      }
     }
     attr->name = name;
     if (val) {
       if (!(flags & COAP_ATTR_FLAGS_RELEASE_VALUE)) {
         /* Need to take a copy if caller is not providing a release request */
         val = coap_new_str_const(val->s, val->length);
+        if (!val) {
+          if (!(flags & COAP_ATTR_FLAGS_RELEASE_NAME))
+            coap_delete_str_const(name);
+          coap_free_type(COAP_RESOURCEATTR, attr);
+          return NULL;
+        }
       }
     }
     attr->value = val;
